@@ -143,9 +143,12 @@ def run_tree(item, rec):
                     for cz in ((False, True) if (not cfg and not scaled and (n == 2 or (tier != 'quick' and ti == 0))) else (False,)):
                         case = dict(inputs=list(inputs), output=output, ssa=[list(p) for p in ssa], sliced=list(cfg), scaled=scaled, check_zero=cz)
 
-                        def harness(ctx, ssa=ssa, cfg=cfg, scaled=scaled, cz=cz, case=case):
+                        cur = {}
+
+                        def harness(ctx, ssa=ssa, cfg=cfg, scaled=scaled, cz=cz, case=case, cur=cur):
                             laurent.reset()
                             arrs, scales = q_arrays(inputs, size, scaled)
+                            cur["arrs"] = arrs
                             ref = symarr.dense_einsum(inputs, output, size, plain_arrays(arrs))
                             tree = ContractionTree.from_path(inputs, output, size, ssa_path=ssa)
                             for ix in cfg:
@@ -188,7 +191,10 @@ def run_tree(item, rec):
                                             bads.append(num > den)  # some slice exponent exceeds the returned one
                                 rec.refute(ctx, z3.Or(bads) if bads else False, "gathered exponent == max of the slice exponents (normalisation)", viol, reach_probe=False, timeout_ms=1500)
 
-                        rec.add_explore(symx.explore(harness, max_paths=(250 if tier == "quick" else 4000), deadline_s=(12 if tier == "quick" else 300), timeout_ms=(300 if tier == "quick" else 1500)))
+                        rec.add_explore(symx.explore(rec.guard_harness(harness, "mantissa * 10^exponent == plain contraction", lambda mdl, case=case, cur=cur, ssa=ssa, cfg=cfg, scaled=scaled, cz=cz: dict(
+                            case=case, arrays=[[float(symx.eval_model(mdl, a[idx].n)) for idx in np.ndindex(*a.shape)] for a in cur["arrs"]],
+                            signature=["C19", list(inputs), output, str(ssa), list(cfg), scaled, cz])),
+                            max_paths=(250 if tier == "quick" else 4000), deadline_s=(12 if tier == "quick" else 300), timeout_ms=(300 if tier == "quick" else 1500)))
         rec.sample(dict(inputs=list(inputs), output=output, dims=2, slice_configs=len(slice_cfgs), entries="z3 Reals with Laurent-monomial bookkeeping"))
     # engine validation: real floats
     inputs, output = item["skeletons"][0]
